@@ -71,7 +71,7 @@ def gen_case(rng, tier, *, semi=False, metrics=None, force_tie_free=False, allow
             Q[t] = X[int(rng.integers(0, len(X)))]
     if rng.random() < 0.1:
         # class identifiers need not be 0..K-1 for the (semi-)supervised models: an injective relabelling to arbitrary integers
-        ids = rng.choice(50, size=int(Y.max()) + 1, replace=False)
+        ids = rng.choice(max(50, 2 * (int(Y.max()) + 1)), size=int(Y.max()) + 1, replace=False)
         if rng.random() < 0.5:
             ids = rng.choice(np.arange(257, 100000), size=int(Y.max()) + 1, replace=False)     # beyond CPython's small-int cache
         Y = ids[Y]
